@@ -130,13 +130,20 @@ class Run:
         try:
             r = tlc.run_tlc(module, cfg, env=env, timeout=timeout, workers=workers, on_raw=eng.feed,
                             simulate=simulate, depth=depth, seed=seed if seed is not None else self.seed,
-                            allow_timeout=(simulate is not None or self.tier != 'quick'), stop_after=max_cases)
+                            allow_timeout=True, stop_after=max_cases)
         finally:
             tot = eng.finish()
         if r.violation:
             raise tlc.MachineryError('specification-level violation in %s/%s:\n%s' % (module, cfg, r.violation[:3000]))
         if tot['errors']:
             raise tlc.MachineryError('replay machinery error: %s' % tot['errors'][0])
+        if r.error == 'timeout' and simulate is None and self.tier == 'quick':
+            # quick tier: an enumeration must finish. If it did not because the tree under test makes the replay slow (TLC
+            # blocks on its output pipe) and divergences were found, the verdict stands; otherwise it is a machinery failure
+            kept = [d for d in tot['div'] if keep is None or keep(d) or d.get('kind') == 'timeout']
+            if not kept:
+                raise tlc.MachineryError('TLC timed out after %ss: %s' % (timeout, r.cmd))
+            self.hang_seen = True
         if tot.get('drain_timed_out'):
             kept = [d for d in tot['div'] if keep is None or keep(d) or d.get('kind') == 'timeout']
             if not kept and self.tier == 'quick':
@@ -205,7 +212,7 @@ class Run:
         for cid, pos in corrupted.items():
             v = res.get(cid)
             o = res.get(src[cid])
-            if o is not None and o['status'] == 'rejected' and o['pos'] <= pos:
+            if o is not None and o['status'] != 'accepted' and o['pos'] <= pos:
                 continue            # the recorded trace itself is rejected earlier (reported below as a divergence)
             if v is None or v['status'] != 'rejected' or v['pos'] != pos:
                 raise tlc.MachineryError('binding self-test failed: corrupted trace %s not rejected at event %s: %s'
@@ -300,7 +307,7 @@ class Run:
         for cid, pos in corrupted.items():
             v = res.get(cid)
             o = res.get(src[cid])
-            if o is not None and o['status'] == 'rejected' and o['pos'] <= pos:
+            if o is not None and o['status'] != 'accepted' and o['pos'] <= pos:
                 continue            # the recorded trace itself is rejected earlier (reported below as a divergence)
             if v is None or v['status'] != 'rejected' or v['pos'] != pos:
                 raise tlc.MachineryError('binding self-test failed: corrupted graph trace %s not rejected at event %s: %s'
